@@ -291,11 +291,14 @@ def run_schedule(case):
 GP_BOUNDS = {'unit': [(0.0, 1.0), (0.0, 1.0)], 'shifted': [(-2.0, 1.0), (3.0, 7.0)], 'narrow': [(0.0, 1e-3), (5.0, 5.5)]}
 
 
-def fit_gp(dim, bname, n=6):
+def fit_gp(dim, bname, n=6, bdict='sorted'):
     from elfi.methods.bo.gpy_regression import GPyRegression
     names = ['a', 'b'][:dim]
     bnds = GP_BOUNDS[bname][:dim]
-    gp = GPyRegression(names, bounds={k: bnds[i] for i, k in enumerate(names)}, max_opt_iters=20)
+    items = list(enumerate(names))
+    if bdict == 'reversed':      # the user wrote the bounds dict in another order than the parameter names
+        items = items[::-1]
+    gp = GPyRegression(names, bounds={k: bnds[i] for i, k in items}, max_opt_iters=20)
     lo = np.array([b[0] for b in bnds])
     hi = np.array([b[1] for b in bnds])
     k = np.arange(n)
@@ -327,7 +330,7 @@ def run_acq(case):
     elfi.client.set_client(native.Client())
     dim = case['dim']
     with pin.pinned(0):
-        gp, names, bnds = fit_gp(dim, case['bounds'])
+        gp, names, bnds = fit_gp(dim, case['bounds'], bdict=case.get('bdict', 'sorted'))
         prior = make_prior(dim, case['prior'], names, bnds)
     nv = case['noise']
     if nv == 'dict':
@@ -463,11 +466,14 @@ def run(ctx):
                                            'noise': noise, 'seed': seed, 'ns': [1, 2, 4] if not heavy else [1, 3]})
                             if cls == 'RandMaxVar' and noise == 0:
                                 acases.append(dict(acases[-1], sampler='nuts'))
+                            if dim == 2 and bname == 'shifted' and noise in (0, 'dict') and seed == 0:
+                                acases.append(dict({k_: v_ for k_, v_ in acases[-1].items() if k_ != 'sampler'},
+                                                   bdict='reversed'))
     ctx.run_cases(run_acq, acases, 'real-gp', chunksize=1, sample_every=max(1, len(acases) // 4))
     ctx.rule = ('schedule-trees: one case = the complete (pruned) schedule tree of a configuration (acquisition rule x '
                 'batch_size x batches_per_acquisition x initial-evidence form {0, count, precomputed dict} x update_interval x '
                 'max_parallel_batches); evaluations = executions; distinct_nontrivial = distinct client event logs; real-gp: '
-                'full product acquisition class x dimension x bounds x prior x noise setting x seed, acquire(n,t) for several '
+                'full product acquisition class x dimension x bounds x prior x noise setting x seed (2-D shifted bounds also with the bounds dict written in reversed order), acquire(n,t) for several '
                 'n and t, gradient grids')
     ctx.assumptions += [
         'schedule exploration uses a recording stub surrogate with the GPyRegression interface (real acquisition rules, '
